@@ -39,6 +39,8 @@ func refSuperset(a, b string) bool {
 	}
 }
 
+var c06PriorName = []string{"none", "explicit-empty-pattern", "allowed-pattern", "legacy(no pattern)", "same-pattern-explicit"}
+
 type c06World struct {
 	w                         *world
 	allowed, presumed, polled string
@@ -60,11 +62,39 @@ func init() {
 			cw.polled = c06Patterns[vs.Choose("polled", len(c06Patterns))]
 			cw.present = vs.Choose("present", 2) == 0
 			cw.presumed = c06Patterns[vs.Choose("presumed", cfgInt(x, "presumed", 4))]
-			x.Outcome(fmt.Sprintf("allowed=%q polled=%q present=%v presumed=%q", cw.allowed, cw.polled, cw.present, cw.presumed))
+			// an earlier poll on the same broker (served by a client of its own if it is accepted): whatever
+			// the broker remembers from it must not change the verdict on the poll that is judged
+			prior := 0
+			if n := cfgInt(x, "prior", 0); n > 0 {
+				prior = vs.Choose("prior", n)
+			}
+			x.Outcome(fmt.Sprintf("allowed=%q polled=%q present=%v presumed=%q prior=%s", cw.allowed, cw.polled, cw.present, cw.presumed, c06PriorName[prior]))
 			w := newWorld()
 			cw.w = w
 			w.ctx.allowedRelayPattern = cw.allowed
 			w.ctx.presumedPatternForLegacyClient = cw.presumed
+			if prior > 0 {
+				pp := w.addProxy(NATUnrestricted, "standalone", 0, 0, ansPrompt)
+				pp.sid = "prior-sid"
+				switch prior {
+				case 1:
+					e := ""
+					pp.pattern = &e // pattern-aware proxy accepting every relay
+				case 2:
+					a := cw.allowed
+					pp.pattern = &a
+				case 3:
+					pp.pattern = nil // legacy proxy
+				case 4:
+					q := cw.polled
+					pp.pattern = &q // the same pattern, sent explicitly
+				}
+				vs.GoRole("prior-proxy", vs.RoleRequest, func() { w.runProxy(pp) })
+				vs.Sleep(time.Second)
+				pc := w.addClient("unknown", "", 0, viaIPC)
+				vs.GoRole("prior-client", vs.RoleRequest, func() { w.runClient(pc) })
+				vs.Sleep(29 * time.Second) // everything about the earlier poll is over
+			}
 			p := w.addProxy(NATUnrestricted, "standalone", 0, 0, ansPrompt)
 			if cw.present {
 				pat := cw.polled
